@@ -217,6 +217,11 @@ func c02Run(u *vfUnit) {
 		if kind == vfOS && pi%4 == 3 {
 			cfg.ReadOnly = true
 		}
+		// every sixth program: a session that has already handled almost 2^32 packets (the internal order ids wrap)
+		if pi%6 == 1 {
+			cfg.PacketCount = 0xFFFFFFFF - uint32(r.Intn(120))
+			u.Count("programs_crossing_the_order_id_wrap", 1)
+		}
 		// every sixth program of a unit (both servers): the maximum payload raised beyond the 256 KiB message limit
 		if pi%6 == 4 {
 			cfg.MaxTx = 300000
@@ -263,6 +268,9 @@ func c02Run(u *vfUnit) {
 		}
 		prog, maxFrames := c02Program(r, e, depth, cfg.MaxTx > 0)
 		label := fmt.Sprintf("%v/alloc=%v/procs=%d/depth=%d/profile=%d", kind, alloc, procs, depth, profile)
+		if cfg.PacketCount != 0 {
+			label += "/order-id-wrap"
+		}
 		if cfg.ReadOnly {
 			label += "/read-only"
 			u.Count("programs_read_only_server", 1)
